@@ -93,7 +93,7 @@ pub fn s1(property: &str, scenario: &str, seed: u64, o: &S1Opts) -> Plan {
     // spectators
     let mut nodes: Vec<NodeSpec> = Vec::new();
     for p in 0..n_peers {
-        nodes.push(NodeSpec { kind: NodeKind::Peer { locals: locals[p].clone() }, tick: TickSpec::default(), wall_offset_ms: 0, drain: true });
+        nodes.push(NodeSpec { kind: NodeKind::Peer { locals: locals[p].clone() }, tick: TickSpec::default(), wall_offset_ms: 0, drain: true, timeout_ms: None, notify_ms: None });
     }
     let n_spec = if o.force_spectators {
         c.range(&[16], 1, 2)
@@ -116,8 +116,7 @@ pub fn s1(property: &str, scenario: &str, seed: u64, o: &S1Opts) -> Plan {
             },
             tick: TickSpec::default(),
             wall_offset_ms: 0,
-            drain: true,
-        });
+            drain: true, timeout_ms: None, notify_ms: None });
     }
     let n = nodes.len();
 
@@ -493,8 +492,7 @@ fn c05_base_plan(property: &str, seed: u64, b: (u8, usize, usize, bool)) -> Plan
         kind,
         tick: TickSpec { start_us: start, period_us: period, ..Default::default() },
         wall_offset_ms: 1_700_000_000_000 + start,
-        drain: true,
-    };
+        drain: true, timeout_ms: None, notify_ms: None };
     let (nodes, np) = match topo {
         0 => (vec![mk(NodeKind::Peer { locals: vec![0] }, 0), mk(NodeKind::Peer { locals: vec![1] }, 3000)], 2),
         1 => (
@@ -702,8 +700,7 @@ fn c05_search(property: &str, seed: u64) -> Plan {
             kind: NodeKind::Spectator { host, max_frames_behind: *c.pick(&[3], &[2usize, 5, 10]), catchup_speed: *c.pick(&[4], &[2usize, 4, 8]) },
             tick: TickSpec { start_us: 5000, period_us: per, ..Default::default() },
             wall_offset_ms: 5_000_000,
-            drain: true,
-        });
+            drain: true, timeout_ms: None, notify_ms: None });
         let lat = ms(*c.pick(&[5], &[1u64, 10, 30, 60]));
         p.links.push(LinkSpec { from: host, to: id, base_us: lat, jitter_us: lat / 3, loss_ppm: 0, dup_ppm: 0 });
         p.links.push(LinkSpec { from: id, to: host, base_us: lat, jitter_us: lat / 3, loss_ppm: 0, dup_ppm: 0 });
@@ -814,16 +811,15 @@ fn two_peer_base(property: &str, scenario: &str, seed: u64, c: &Ch, allow_specta
     let np = k0 + k1;
     let fps = 60usize;
     let mut nodes = vec![
-        NodeSpec { kind: NodeKind::Peer { locals: (0..k0).collect() }, tick: TickSpec::default(), wall_offset_ms: c.range(&[102], 1_000_000, 2_000_000_000_000), drain: true },
-        NodeSpec { kind: NodeKind::Peer { locals: (k0..np).collect() }, tick: TickSpec::default(), wall_offset_ms: c.range(&[103], 1_000_000, 2_000_000_000_000), drain: true },
+        NodeSpec { kind: NodeKind::Peer { locals: (0..k0).collect() }, tick: TickSpec::default(), wall_offset_ms: c.range(&[102], 1_000_000, 2_000_000_000_000), drain: true, timeout_ms: None, notify_ms: None },
+        NodeSpec { kind: NodeKind::Peer { locals: (k0..np).collect() }, tick: TickSpec::default(), wall_offset_ms: c.range(&[103], 1_000_000, 2_000_000_000_000), drain: true, timeout_ms: None, notify_ms: None },
     ];
     if allow_spectator && c.chance(&[104], 300_000) {
         nodes.push(NodeSpec {
             kind: NodeKind::Spectator { host: 0, max_frames_behind: *c.pick(&[105], &[5usize, 10, 30]), catchup_speed: *c.pick(&[106], &[1usize, 2, 8]) },
             tick: TickSpec::default(),
             wall_offset_ms: 77,
-            drain: true,
-        });
+            drain: true, timeout_ms: None, notify_ms: None });
     }
     for (i, n) in nodes.iter_mut().enumerate() {
         n.tick = TickSpec {
@@ -1285,10 +1281,29 @@ pub fn c10(property: &str, seed: u64) -> Plan {
         let back = if c.chance(&[4, s as u64], 300_000) { 0 } else { c.range(&[5, s as u64], 0, ms(150)) };
         p.windows.push(Window { from: v, to: s, start_us: t_kill.saturating_sub(back), end_us: t_kill + ms(50), kinds: ALL_KINDS, action: WinAction::Drop });
     }
-    let max_lat = p.links.iter().map(|l| l.base_us + l.jitter_us).max().unwrap_or(0);
-    let heal = t_kill + ms(p.cfg.timeout_ms) + 2 * max_lat + ms(1200);
-    p.horizon_us = heal + ms(2000);
     let survivors: Vec<usize> = peers.iter().copied().filter(|&s| s != v).collect();
+    // survivors may notice the death at different instants for other reasons than a split: their
+    // own timeouts differ, or a short loss burst between two survivors (they stay connected: the
+    // burst is far shorter than any timeout) delays the gossip
+    let mut longest_timeout = p.cfg.timeout_ms;
+    if c.chance(&[6], 300_000) {
+        let s = survivors[c.range(&[7], 0, survivors.len() as u64 - 1) as usize];
+        let t = c.range(&[8], 500, 3000);
+        p.nodes[s].timeout_ms = Some(t);
+        p.nodes[s].notify_ms = Some((t / 3).max(100));
+        longest_timeout = longest_timeout.max(t);
+    }
+    if c.chance(&[9], 400_000) && survivors.len() >= 2 {
+        let a = survivors[c.range(&[10], 0, survivors.len() as u64 - 1) as usize];
+        let b = survivors.iter().copied().find(|&x| x != a).unwrap();
+        let shortest = survivors.iter().map(|&s| p.nodes[s].timeout_ms.unwrap_or(p.cfg.timeout_ms)).min().unwrap_or(2000);
+        let d = ms(c.range(&[11], 50, 700).min(shortest.saturating_sub(300).max(50)));
+        let at = t_kill.saturating_sub(c.range(&[12], 0, ms(100)));
+        p.windows.push(Window { from: a, to: b, start_us: at, end_us: at + d, kinds: ALL_KINDS, action: WinAction::Drop });
+    }
+    let max_lat = p.links.iter().map(|l| l.base_us + l.jitter_us).max().unwrap_or(0);
+    let heal = t_kill + ms(longest_timeout) + 2 * max_lat + ms(1500);
+    p.horizon_us = heal + ms(2000);
     p.oracle.liveness = Some(Liveness { heal_us: heal, deadline_us: heal + ms(2000), min_frames: 3, require_running: false, nodes: survivors, spectator_lag: false });
     p.oracle.survivor_agreement = true;
     p
@@ -1364,8 +1379,7 @@ pub fn c18(property: &str, seed: u64, index: u64) -> Plan {
                         kind: NodeKind::Spectator { host: 0, max_frames_behind: 10, catchup_speed: 2 },
                         tick: TickSpec { start_us: 3000 * (k + 1), period_us: per, ..Default::default() },
                         wall_offset_ms: 5_000_000 + k,
-                        drain: true,
-                    });
+                        drain: true, timeout_ms: None, notify_ms: None });
                     let lat = ms(*c.pick(&[11, k], &[0u64, 5, 30]));
                     p.links.push(LinkSpec { from: 0, to: id, base_us: lat, jitter_us: lat / 2, loss_ppm: *c.pick(&[12, k], &[0u32, 20_000]), dup_ppm: 0 });
                     p.links.push(LinkSpec { from: id, to: 0, base_us: lat, jitter_us: lat / 2, loss_ppm: 0, dup_ppm: 0 });
@@ -1563,8 +1577,7 @@ pub fn c15(property: &str, seed: u64, index: u64) -> Plan {
         kind: NodeKind::Peer { locals },
         tick: TickSpec { start_us: st, period_us: per, poll_period_us: poll, ..Default::default() },
         wall_offset_ms: wall,
-        drain: true,
-    };
+        drain: true, timeout_ms: None, notify_ms: None };
     let day = 86_400_000u64;
     let base = 1_700_000_000_000u64;
     let nodes = vec![
@@ -1576,6 +1589,17 @@ pub fn c15(property: &str, seed: u64, index: u64) -> Plan {
         LinkSpec { from: 1, to: 0, base_us: ms(lat_ms), jitter_us: 0, loss_ppm: 0, dup_ppm: 0 },
     ];
     let measure_from = start + ms(3000) + 8 * per;
+    // in a third of the runs quality reports / replies get lost during the warm-up (never during the
+    // measurement): the estimates must still settle once reports flow again
+    let mut windows = Vec::new();
+    if c.chance(&[7], 330_000) {
+        for j in 0..c.range(&[8], 1, 3) {
+            let (from, to) = if c.chance(&[9, j], 500_000) { (0, 1) } else { (1, 0) };
+            let at = c.range(&[10, j], 0, measure_from - ms(2000));
+            let d = ms(c.range(&[11, j], 50, 450));
+            windows.push(Window { from, to, start_us: at, end_us: (at + d).min(measure_from - ms(1800)), kinds: (1 << K_QREPORT) | (1 << K_QREPLY), action: WinAction::Drop });
+        }
+    }
     Plan {
         property: property.to_owned(),
         scenario: "c15-constant-lead".into(),
@@ -1599,7 +1623,7 @@ pub fn c15(property: &str, seed: u64, index: u64) -> Plan {
         },
         nodes,
         links,
-        windows: Vec::new(),
+        windows,
         pkt_faults: Vec::new(),
         api: Vec::new(),
         injects: Vec::new(),
